@@ -36,6 +36,8 @@ def room_code(r):
         return int(r[4:]) + 101
     if r.startswith("late") and r[4:].isdigit():
         return int(r[4:]) + 201
+    if r == "sess":
+        return 51
     return 999999
 
 
@@ -44,6 +46,12 @@ def gview(v):
         gbool(v["listed"]), gbool(v["fetch"]), gbool(v["connected"]), gbool(v["has_rooms"]),
         glist(gN(room_code(r)) for r in v["rooms"]), gbool(v["reach_all"]), gbool(v["reach_own"]),
         glist(gN(room_code(r)) for r in v["reach_via"]))
+
+
+def restored(r):
+    """The adapter really restored a session for this CONNECT: recovery enabled and the auth named
+    a session (pid + offset) the rig had registered with the adapter."""
+    return bool(r.get("rec")) and r.get("a") == 2
 
 
 def adm_term(r):
@@ -58,9 +66,10 @@ def adm_term(r):
         msg = (kind, 999999, 999999)      # a message the rig cannot attribute
     else:
         msg = (0, 0, 0)
-    return "(mkacase %s %s %s %s %s %s %s %s %s %s %s %s %s %s %s)" % (
+    return "(mkacase %s %s %s %s %s %s %s %s %s %s %s %s %s %s %s %s %s)" % (
         chain, calls, hviews, gN(resp), gN(msg[0]), gN(msg[1]), gN(msg[2]), gview(r["post"]), gview(r["final"]),
-        gbool(r["resp_sid"]), gbool(r["probe"]), gN(r["trap"]), gN(r["anyh"]), gN(r["final_evt"]), gbool(r["h_waited"]))
+        gbool(r["resp_sid"]), gbool(r["probe"]), gN(r["trap"]), gN(r["anyh"]), gN(r["final_evt"]), gbool(r["h_waited"]),
+        gbool(restored(r)), gbool(bool(r.get("usemw"))))
 
 
 def adm_describe(r):
@@ -69,6 +78,12 @@ def adm_describe(r):
     what = []
     idx = [c["mw"] for c in r["calls"]]
     want = list(range(len(r["v"]))) if rej is None else list(range(rej + 1))
+    skip = restored(r) and not r.get("usemw")
+    if skip:
+        rej, want = None, []
+    elif r.get("rec") and r.get("a") and r["resp"] == "connect" and idx != want:
+        what.append("recovery was only REQUESTED (auth kind %d: the adapter restores nothing) and the socket was connected "
+                    "without the namespace middlewares" % r["a"])
     if idx != want:
         what.append("middlewares called %s, expected %s" % (idx, want))
     if rej is not None:
@@ -96,6 +111,14 @@ def adm_describe(r):
     return "; ".join(what) or "observation violates the admission property"
 
 
+def rec_words(r):
+    if not r.get("rec"):
+        return ""
+    return " (recovery enabled, UseMiddlewares %s, CONNECT auth: %s)" % (
+        "on" if r.get("usemw") else "off",
+        {0: "no pid", 1: "a pid/offset the adapter cannot restore", 2: "pid+offset of a session the adapter restores"}[r.get("a", 0)])
+
+
 def adm_suite(ctx, vh, name, args, goclient=False):
     def once():
         rows = ctx.vh_jsonl(vh, "middleware", args, timeout=900)
@@ -115,6 +138,12 @@ def adm_suite(ctx, vh, name, args, goclient=False):
         rows, stray = once()
         if rows is None:
             return
+    # attempts that could not be made because an earlier CONNECT on the same connection was accepted
+    # although it had to be refused (that one is reported): not observations
+    notrun = [r for r in rows if r["resp"] == "notrun"]
+    if notrun:
+        ctx.note("%s: %d planned attempts were not made (an earlier CONNECT on their connection was accepted unexpectedly)" % (name, len(notrun)))
+        rows = [r for r in rows if r["resp"] != "notrun"]
     # a held Join that the watchdog (not the script) ended: the schedule was not the forced one
     wd = [r for r in rows if r.get("watchdog")]
     if wd:
@@ -123,7 +152,7 @@ def adm_suite(ctx, vh, name, args, goclient=False):
         rows = [r for r in rows if not r.get("watchdog")]
     terms = [adm_term(r) for r in rows]
     for r in rows:
-        key = (r["nsp"], tuple(r["v"]), tuple(r["j"]), r["conc"] > 1) if r["k"] > 0 else None
+        key = (r["nsp"], tuple(r["v"]), tuple(r["j"]), r["conc"] > 1, r.get("rec"), r.get("usemw"), r.get("a")) if r["k"] > 0 else None
         kind = "accept" if all(v == 0 for v in r["v"]) else "reject"
         ctx.count(1, nontrivial_key=key, dist="%s:k%d:%s" % (name, r["k"], kind))
     rj = [r for r in rows if r["resp"] == "connect_error" and any(r["j"])]
@@ -134,13 +163,13 @@ def adm_suite(ctx, vh, name, args, goclient=False):
         # only the correspondence differs (the property holds on the observation): the suite is run
         # again before anything is reported; a difference that does not come back for the same
         # case (namespace, verdicts, joins) was a schedule the rig did not force - counted, not reported
-        first = {(rows[i]["nsp"], tuple(rows[i]["v"]), tuple(rows[i]["j"])) for i in bad_agree}
+        first = {(rows[i]["nsp"], tuple(rows[i]["v"]), tuple(rows[i]["j"]), rows[i].get("a")) for i in bad_agree}
         rows2, stray2 = once()
         if rows2 is not None:
             rows2 = [r for r in rows2 if not r.get("watchdog")]
             bo2, ba2 = eval_both(ctx, "adm_" + name.replace("-", "_") + "_again", [adm_term(r) for r in rows2],
                                  "oracle", "agree", "oracle_and_agree")
-            again = {(rows2[i]["nsp"], tuple(rows2[i]["v"]), tuple(rows2[i]["j"])) for i in ba2}
+            again = {(rows2[i]["nsp"], tuple(rows2[i]["v"]), tuple(rows2[i]["j"]), rows2[i].get("a")) for i in ba2}
             if bo2 or (first & again):
                 rows, stray, bad_oracle, bad_agree = rows2, stray2, bo2, ba2
             else:
@@ -156,8 +185,8 @@ def adm_suite(ctx, vh, name, args, goclient=False):
         ctx.violation("admission rig: %s" % s["what"], {"kind": "failing-input", "engine": "middleware", "args": args, "stray": s})
     for i in bad_oracle[:3]:
         r = rows[i]
-        ctx.fail_or_known(None, "namespace %s, chain verdicts %s (0 accept, 1 error, 2 string, 3 data), joins %s (1-3 Join calls, 4 `go Join` held in progress by the adapter, 5 `go Join` started after the answer): %s"
-                          % (r["nsp"], r["v"], r["j"], adm_describe(r)),
+        ctx.fail_or_known(None, "namespace %s%s, chain verdicts %s (0 accept, 1 error, 2 string, 3 data), joins %s (1-3 Join calls, 4 `go Join` held in progress by the adapter, 5 `go Join` started after the answer): %s"
+                          % (r["nsp"], rec_words(r), r["v"], r["j"], adm_describe(r)),
                           {"kind": "failing-input", "engine": "middleware", "args": args, "case": r})
     if bad_agree and not bad_oracle:
         r = rows[bad_agree[0]]
@@ -313,6 +342,8 @@ def run(ctx):
     ctx.rule = ("admission: every accept/reject vector (accept, error, string, structured data) for chains of 0..%d namespace "
                 "middlewares x 2 join patterns (none, random; 3 in the sequential run) x {/, /chat}, 8 concurrent raw-protocol sessions and again (shorter chains) one at a time, "
                 "several rejected CONNECTs then an accepted one per Engine.IO connection; plus a sample through the Go client; "
+                "recovery: connection state recovery on (UseMiddlewares off / on) and off x CONNECT auth {no pid, a pid/offset the adapter cannot restore, "
+                "pid+offset of a session the adapter restores} x every verdict vector for chains <=2/3; "
                 "asynchronous Joins: every verdict vector for chains <=%d with middlewares that start `go socket.Join(..)` - held in progress by a "
                 "blocking adapter across the rest of the chain and the clean-up, or started after the answer (3 patterns); "
                 "forced windows: socket A parked in middleware g (every g, every chain of <=%d reaching g) while B is admitted/refused and "
@@ -337,6 +368,12 @@ def run(ctx):
         lambda: adm_suite(ctx, vh, "raw-seq", ["-mode", "adm", "-maxlen", 2 if q else 3, "-conc", 1, "-seed", ctx.seed + 1]),
         lambda: adm_suite(ctx, vh, "raw-async", ["-mode", "adm", "-maxlen", 2 if q else 3, "-conc", 16, "-seed", ctx.seed + 5,
                                                  "-jvfrom", 3, "-joinvariants", 3]),
+        lambda: adm_suite(ctx, vh, "raw-recovery", ["-mode", "adm", "-maxlen", 2 if q else 3, "-conc", 8, "-seed", ctx.seed + 6,
+                                                    "-jvfrom", 1, "-joinvariants", 1, "-authkinds", 3, "-recovery=true", "-usemw=false"]),
+        lambda: adm_suite(ctx, vh, "raw-recovery-usemw", ["-mode", "adm", "-maxlen", 2 if q else 3, "-conc", 8, "-seed", ctx.seed + 7,
+                                                          "-jvfrom", 1, "-joinvariants", 1, "-authkinds", 3, "-recovery=true", "-usemw=true"]),
+        lambda: adm_suite(ctx, vh, "raw-norecovery-pid", ["-mode", "adm", "-maxlen", 2, "-conc", 8, "-seed", ctx.seed + 8,
+                                                          "-jvfrom", 1, "-joinvariants", 1, "-authkinds", 3]),
         lambda: adm_suite(ctx, vh, "goclient", ["-mode", "admgo", "-maxlen", k, "-n", 12 if q else 64, "-seed", ctx.seed + 2]),
         lambda: win_suite(ctx, vh, ["-mode", "win", "-maxlen", 2 if q else 3, "-seed", ctx.seed + 4]),
         lambda: ev_suite(ctx, vh, ["-mode", "ev", "-maxlen", 2 if q else 3, "-seed", ctx.seed + 3]),
